@@ -255,6 +255,10 @@ fn eval_filtered<C: Serialize>(
     f: &dyn Fn(&C) -> Outcome,
     count: bool,
 ) -> Option<(String, String)> {
+    if std::env::var("NV_TRACE_CASES").is_ok() {
+        // (investigation aid: the last line printed before an abort names the case)
+        eprintln!("case[{}]: {}", engine, serde_json::to_string(case).unwrap_or_default());
+    }
     let out = guarded(ctx, f, case);
     if let Some((sig, detail)) = &out.fail {
         if ctx.is_known(sig) {
